@@ -35,7 +35,11 @@ RULE = (
     'hand-written shapes: one workflow template instantiated twice / at two depths, references into both instances, '
     'producers at overlapping locations (u/p and u/u/p) with paths spelled like steps, one reference fanned out to '
     'several consumers, diamond, chain of one template at three depths in both directions, swapped parameter names, '
-    'entry = component; (names) one template at three depths or as two siblings plus a nested one, step names from '
+    'entry = component; (prefix-names) two producers whose step names are related as strings but are different path '
+    'elements ({a,aa},{a,ab},{a,a-b},{a,a.b},{a,a_b},{sim,sim-post},{a,ba},{p,p.txt}; path none, f.txt, or spelled like '
+    'either step), given different arguments and both referenced by one consumer, under all 6 orders of the execute '
+    'list, as siblings / handed down through parameters / inside a nested workflow / as names of two workflow steps / '
+    'as a component next to a workflow; (names) one template at three depths or as two siblings plus a nested one, step names from '
     '{x,y,x-I,x-II,I,x1,stage0.x,stage1.x}^3 (thorough adds X,stage1.x-I,x-IV,II) and entry-instance at one position - '
     'a case with a name outside {x,y} is judged "either properly rejected or compiled correctly"; (cycles) data-flow '
     'cycles between siblings and through a nested workflow. Invalid namespaces: every single-site mutation (22 '
